@@ -890,9 +890,46 @@ def check_readers(program, rep):
     p = g.params()[1]
     good = len(body) == 1 and isinstance(body[0], ast.Return) and norm(
         body[0].value) == f'list(self._get({p}))'
+    if not good:
+        # path form: every returning path hands out a fresh list of either
+        # the walk itself or an answer remembered under the queried type (the
+        # memo discipline is C06.memo, borrowed below as C01.read-memo)
+        class _GD(Domain):
+            def resolve_call(self, st, call, walker):
+                r = walker.resolve_helper(st, call)
+                return None if r and r[0].name == '_get' else r
+        exs = [e for e in Walker(program, _GD(program)).run(
+            g, program.cls('World')) if e.kind == 'return']
+        good = bool(exs)
+        for ex in exs:
+            v = ex.payload.node if ex.payload is not None else None
+            if isinstance(v, ast.Call) and dotted(v.func) == 'list' \
+                    and len(v.args) == 1:
+                v = v.args[0]
+            else:
+                good = False
+                continue
+            if isinstance(v, ast.Call) and dotted(v.func) in (
+                    'tuple', 'list') and len(v.args) == 1:
+                v = v.args[0]
+            t = norm(v)
+            memo_read = isinstance(v, (ast.Call, ast.Subscript)) and any(
+                isinstance(x, ast.Attribute) and isinstance(
+                    x.value, ast.Name) and x.value.id == 'self'
+                and x.attr not in ('_entities', '_components', '_get')
+                and x.attr.startswith('_') for x in ast.walk(v)) and \
+                f'{p}' in t and '_get(' not in t
+            if t != f'self._get({p})' and not memo_read:
+                good = False
     rep.check(good, 'C01.read', g.where, body[0] if body else g.node.name,
               'get(T) is the list of _get(T)',
               'get(T) is not list(self._get(T))', line=g.node.lineno)
+    from rules import c06
+    rep.borrow(c06.check_query_memo, program, rep,
+               keep=lambda o: o.rule == 'C06.memo' and o.verdict != 'discharged',
+               rename=lambda r: 'C01.read-memo',
+               why='a query answers from a stale memo: it disagrees with its '
+               'sibling queries')
     # has_component / get_component : guarded reads of the entity row
     for name in ('has_component', 'get_component'):
         f = program.method('World', name)
